@@ -359,6 +359,48 @@ def labelled_prefixes(data, maxbits, addpath, d, rd=False):
     return out
 
 
+def labelled_withdrawals(data, maxbits, addpath, d, rd=False):
+    """RFC 8277 2.4 (and RFC 4364 4.3.4 for the VPN families): a withdrawn labelled NLRI has the same layout as an announced
+    one, <length, label, [RD,] prefix>, with ONE 3-octet label field which is sent as 0x800000 and ignored by the receiver.
+    -> list of (path_id bytes | None, the 3 label octets, rd bytes | None, prefix bits, prefix bytes)"""
+    out = []
+    i = 0
+    n = len(data)
+    while i < n:
+        pid = None
+        if addpath:
+            if i + 4 >= n:
+                raise Malformed('nlri-truncated')
+            pid = data[i:i + 4]
+            i += 4
+        bits = data[i]
+        i += 1
+        if d.b(bits < 24):
+            raise Malformed('withdrawn-labelled-nlri-without-label-field')
+        if i + 3 > n:
+            raise Malformed('nlri-truncated')
+        compat = data[i:i + 3]
+        i += 3
+        bits = bits - 24
+        rdv = None
+        if rd:
+            if d.b(bits < 8 * RD_LEN):
+                raise Malformed('nlri-rd-overruns-length')
+            if i + RD_LEN > n:
+                raise Malformed('nlri-truncated')
+            rdv = data[i:i + RD_LEN]
+            i += RD_LEN
+            bits = bits - 8 * RD_LEN
+        if d.b(bits > maxbits):
+            raise Malformed('nlri-mask-too-long')
+        size = d.n(prefix_size(bits))
+        if i + size > n:
+            raise Malformed('nlri-truncated')
+        out.append((pid, compat, rdv, bits, data[i:i + size]))
+        i += size
+    return out
+
+
 def mp_nexthop(afi, safi, nh, extended_nh, d):
     """The 'Network Address of Next Hop' field of MP_REACH_NLRI for IP families.
     RFC 4760 3 (length + address), RFC 2545 3 (IPv6: 16, or 32 = global + link-local), RFC 4364 4.3.2 / RFC 4659 3.2.1
